@@ -146,7 +146,9 @@ func (task *genericTask) Type() ActivityType {
 }
 
 func (task *genericTask) Cancel() <-chan bool {
-	response := make(chan bool)
+	// buffered: whoever asked may have stopped waiting for the answer (its
+	// context is done) and the node's loop must not block on it
+	response := make(chan bool, 1)
 	task.mch <- cancelMessage{response: response}
 	return response
 }
